@@ -60,14 +60,55 @@ def err(a, b):
     return max(math.sqrt(sum((u - v) ** 2 for u, v in zip(p, q))) for p, q in zip(a, b))
 
 
-def reference(seed, T, tp, G, tpcfg=None):
+EVENTS = (0.25, 0.5, 0.75)      # user interventions at these fractions of the run
+
+
+def user_edit(sim):
+    """the particle edit used by the 'edit' intervention (same edit in the reference)"""
+    p = sim.particles[2]
+    p.vx *= 1.001; p.vy *= 1.001; p.vz *= 1.001
+
+
+def reference(seed, T, tp, G, tpcfg=None, edits=False):
     sim = make_system(seed, tp, G, tpcfg)
     sim.integrator = "ias15"
     sim.ri_ias15.epsilon = 1e-9
     sim.ri_ias15.min_dt = 0
     sim.dt = math.copysign(0.01, T)
+    if edits:
+        for f in EVENTS:
+            sim.integrate(T * f, exact_finish_time=1)
+            user_edit(sim)
     sim.integrate(T, exact_finish_time=1)
     return state(sim)
+
+
+def set_recalc(sim):
+    k = sim.integrator
+    if k in ("whfast", "saba"):
+        sim.ri_whfast.recalculate_coordinates_this_timestep = 1
+    elif k == "mercurius":
+        sim.ri_mercurius.recalculate_coordinates_this_timestep = 1
+    elif k == "janus":
+        sim.ri_janus.recalculate_integer_coordinates_this_timestep = 1
+
+
+def intervene(sim, pt, which):
+    """user interventions between steps on ONE simulation object (all documented):
+       recalc: raise the integrator's recalculate-coordinates flag (while unsynchronized if safe_mode = 0);
+       edit:   synchronize, edit a particle, raise the flag;
+       switch: synchronize, switch to another integrator / option set of the same order, and back at the next event."""
+    kind = pt["interventions"]
+    if kind == "recalc":
+        set_recalc(sim)
+    elif kind == "edit":
+        sim.synchronize(); user_edit(sim); set_recalc(sim)
+    elif kind == "switch":
+        sim.synchronize()
+        alt = pt["switch_to"]
+        cur = dict(alt) if which % 2 == 0 else {k2: v for k2, v in pt.items() if k2 in alt}
+        configure(sim, dict(pt, **cur))
+        set_recalc(sim)
 
 
 def configure(sim, pt):
@@ -90,6 +131,7 @@ def configure(sim, pt):
         sim.ri_janus.scale_pos = 1e-16; sim.ri_janus.scale_vel = 1e-16
     elif k == "mercurius":
         sim.ri_mercurius.r_crit_hill = 3
+        sim.ri_mercurius.safe_mode = pt.get("safe_mode", 1)
     elif k == "trace":
         pass
     if pt.get("testparticle_type") is not None:
@@ -100,7 +142,16 @@ def run_fixed(seed, pt, T, nsteps):
     sim = make_system(seed, pt.get("tp", False), pt.get("G", 1.0), tuple(pt["tpcfg"]) if pt.get("tpcfg") else None)
     configure(sim, pt)
     sim.dt = T / nsteps
-    sim.steps(nsteps)
+    if pt.get("interventions"):
+        if nsteps % 4:
+            return None
+        for which in range(4):
+            for _ in range(nsteps // 4):
+                sim.step()
+            if which < 3:
+                intervene(sim, pt, which)
+    else:
+        sim.steps(nsteps)
     sim.synchronize()
     if abs(sim.t - T) > 1e-9 * abs(T):
         return None
@@ -172,6 +223,21 @@ def lattice(tier):
             add("eos/phi0=LF8/phi1=8,n=2/" + tag, 6, 4, integrator="eos", phi0=3, phi1=8, n=2, tpcfg=cfg)
             add("janus/4/" + tag, 4, 16, integrator="janus", order=4, tpcfg=cfg)
             add("mercurius/" + tag, 2, 16, integrator="mercurius", tpcfg=cfg)
+    # user interventions between steps on one simulation object (three events per run)
+    for kind in ("recalc", "edit"):
+        add("whfast/unsafe/%s x3" % kind, 2, 16, integrator="whfast", safe_mode=0, interventions=kind)
+        add("whfast/unsafe/c11/%s x3" % kind, 2, 8, integrator="whfast", safe_mode=0, corrector=11, interventions=kind)
+        add("whfast/unsafe/dh/%s x3" % kind, 2, 16, integrator="whfast", safe_mode=0, coordinates=1, interventions=kind)
+        add("saba/0x1/unsafe/%s x3" % kind, 2, 8, integrator="saba", type=1, safe_mode=0, interventions=kind)
+        add("saba/0x6/unsafe/%s x3" % kind, 4, 4, integrator="saba", type=6, safe_mode=0, interventions=kind)
+        add("mercurius/unsafe/%s x3" % kind, 2, 16, integrator="mercurius", safe_mode=0, interventions=kind)
+        add("eos/LF4/unsafe/%s x3" % kind, 4, 8, integrator="eos", phi0=1, phi1=3, n=4, safe_mode=0, interventions=kind)
+        add("janus/4/%s x3" % kind, 4, 16, integrator="janus", order=4, interventions=kind)
+        add("leapfrog/%s x3" % kind, 2, 64, integrator="leapfrog", interventions=kind)
+    add("whfast/unsafe <-> saba/0x1 x3", 2, 16, integrator="whfast", safe_mode=0, type=1, interventions="switch", switch_to={"integrator": "saba", "type": 1, "safe_mode": 0})
+    add("whfast/unsafe corrector 0 <-> 11 x3", 2, 16, integrator="whfast", safe_mode=0, corrector=0, interventions="switch", switch_to={"corrector": 11})
+    add("whfast/unsafe kernel default <-> composition x3", 2, 16, integrator="whfast", safe_mode=0, kernel=0, interventions="switch", switch_to={"kernel": 2})
+    add("whfast safe_mode 0 <-> 1 x3", 2, 16, integrator="whfast", safe_mode=0, interventions="switch", switch_to={"safe_mode": 1})
     add("mercurius", 2, 16, integrator="mercurius")
     add("trace", 2, 16, integrator="trace")
     return P
@@ -293,6 +359,113 @@ def ode_checks(seed, tier):
     return out
 
 
+WARN_COUNTERS = [("ri_whfast", "_timestep_warning"), ("ri_whfast", "_recalculate_coordinates_but_not_synchronized_warning"),
+                 (None, "_odes_warnings"), ("ri_ias15", "_iterations_max_exceeded"), (None, "_var_rescale_warning")]
+
+
+def reset_warn_counters(sim):
+    for sub, f in WARN_COUNTERS:
+        setattr(getattr(sim, sub) if sub else sim, f, 0)
+
+
+def read_warn_counters(sim):
+    return {f: int(getattr(getattr(sim, sub) if sub else sim, f)) for sub, f in WARN_COUNTERS}
+
+
+def warn_once_checks(seed, tier):
+    """Behaviour must not depend on whether a warning has already been issued.  For every warn-once counter in src/
+    (grep '_warning' / iterations_max_exceeded) a scenario triggers the warning several times on ONE simulation; at every
+    trigger the simulation A is compared with B = an identical copy whose warn-once counters are reset to 0 (i.e. a fresh
+    simulation given the same state): same intervention, same steps, synchronize, states must be bit-identical."""
+    import warnings as _w
+    out = []
+    def compare(a, b):
+        return max(max(abs(getattr(p, c) - getattr(q, c)) for c in ("x", "y", "z", "vx", "vy", "vz")) for p, q in zip(a.particles, b.particles))
+    def scenario(name, build, trigger, steps_between=3, rounds=4, with_ode=False):
+        with _w.catch_warnings():
+            _w.simplefilter("ignore")
+            a = build()
+            ode_a = None
+            if with_ode:
+                ode_a = a.create_ode(length=2, needs_nbody=False)
+                def rhs(ode, yDot, y, t):
+                    yDot[0] = y[1]; yDot[1] = -4.0 * y[0]
+                ode_a.derivatives = rhs; ode_a.y[0] = 1.0; ode_a.y[1] = 0.0
+                a._c01_rhs = rhs
+            worst, fired = 0.0, {}
+            for rd in range(rounds):
+                for _ in range(steps_between):
+                    a.step()
+                if with_ode:
+                    # a copy does not carry user ODEs: compare through a second, identically driven simulation instead
+                    break
+                b = a.copy()
+                reset_warn_counters(b)
+                trigger(a); trigger(b)
+                for _ in range(2):
+                    a.step(); b.step()
+                a2 = a.copy(); b2 = b.copy()
+                a2.synchronize(); b2.synchronize()
+                worst = max(worst, compare(a2, b2))
+            fired = read_warn_counters(a)
+            out.append({"name": "warn-once/" + name, "system_seed": seed, "errors": [worst], "counters": fired,
+                        "ok": worst == 0.0, "options": {"rounds": rounds, "steps_between": steps_between}})
+    def wh(safe=0, dt=0.05, **kw):
+        def f():
+            sim = make_system(seed); sim.integrator = "whfast"; sim.ri_whfast.safe_mode = safe; sim.dt = dt
+            for k, v in kw.items():
+                setattr(sim.ri_whfast, k, v)
+            return sim
+        return f
+    def recalc(sim):
+        sim.ri_whfast.recalculate_coordinates_this_timestep = 1
+    scenario("whfast/recalculate_coordinates_while_unsynchronized", wh(0), recalc)
+    scenario("whfast/recalculate_coordinates_while_unsynchronized/corrector11", wh(0, corrector=11), recalc)
+    scenario("whfast/timestep_warning(dt>period)", wh(0, dt=9.0), recalc)
+    def saba():
+        sim = make_system(seed); sim.integrator = "saba"; sim.ri_saba.safe_mode = 0; sim.dt = 0.05; return sim
+    scenario("saba/recalculate_coordinates_while_unsynchronized", saba, recalc)
+    def merc():
+        sim = make_system(seed); sim.integrator = "mercurius"; sim.ri_mercurius.safe_mode = 0; sim.dt = 0.05; return sim
+    def recalc_m(sim):
+        sim.ri_mercurius.recalculate_coordinates_this_timestep = 1
+    scenario("mercurius/recalculate_coordinates_while_unsynchronized", merc, recalc_m)
+    def ias_rough():
+        sim = make_system(seed); sim.integrator = "ias15"; sim.dt = 0.3
+        def force(simp):
+            ps = simp.contents.particles
+            ps[1].ax += 1e-2 * ((int(abs(ps[1].x) * 1e9) % 2) - 0.5)       # discontinuous: the predictor-corrector cannot converge
+        sim.additional_forces = force; sim._c01_force = force
+        return sim
+    # (a copy loses the python callback: re-attach it in the trigger)
+    def reattach(sim):
+        def force(simp):
+            ps = simp.contents.particles
+            ps[1].ax += 1e-2 * ((int(abs(ps[1].x) * 1e9) % 2) - 0.5)
+        sim.additional_forces = force; sim._c01_force = force
+    scenario("ias15/iterations_max_exceeded", ias_rough, reattach, steps_between=6, rounds=4)
+    # user ODE + safe_mode = 0 (ode_warnings): two identically driven simulations, one with its counter reset before every step
+    with _w.catch_warnings():
+        _w.simplefilter("ignore")
+        sims = []
+        for k in range(2):
+            sim = wh(0)()
+            ode = sim.create_ode(length=2, needs_nbody=False)
+            def rhs(ode, yDot, y, t):
+                yDot[0] = y[1]; yDot[1] = -4.0 * y[0]
+            ode.derivatives = rhs; ode.y[0] = 1.0; ode.y[1] = 0.0
+            sims.append((sim, ode, rhs))
+        for _ in range(8):
+            sims[1][0]._odes_warnings = 0
+            for sim, ode, _r in sims:
+                sim.step()
+        for sim, _o, _r in sims:
+            sim.synchronize()
+        w_ = max(compare(sims[0][0], sims[1][0]), abs(sims[0][1].y[0] - sims[1][1].y[0]), abs(sims[0][1].y[1] - sims[1][1].y[1]))
+        out.append({"name": "warn-once/whfast/ode_warnings", "system_seed": seed, "errors": [w_], "counters": read_warn_counters(sims[0][0]), "ok": w_ == 0.0})
+    return out
+
+
 def main():
     seed = int(sys.argv[1]); tier = sys.argv[2]
     only = sys.argv[3] if len(sys.argv) > 3 else None
@@ -309,9 +482,10 @@ def main():
             for sg in signs:
                 T = sg * T0
                 tpcfg = tuple(pt["tpcfg"]) if pt.get("tpcfg") else None
-                key = (ss, T, pt.get("tp", False), tpcfg)
+                edits = pt.get("interventions") == "edit"
+                key = (ss, T, pt.get("tp", False), tpcfg, edits)
                 if key not in refs:
-                    refs[key] = reference(ss, T, pt.get("tp", False), 1.0, tpcfg)
+                    refs[key] = reference(ss, T, pt.get("tp", False), 1.0, tpcfg, edits)
                 es = []
                 for mult in (1, 2, 4):
                     st = run_fixed(ss, pt, T, pt["n0"] * mult)
@@ -338,7 +512,7 @@ def main():
                 if not ok:
                     failures.append(rec)
         if not only:
-            for a in adaptive_checks(ss, T0) + ode_checks(ss, tier):
+            for a in adaptive_checks(ss, T0) + ode_checks(ss, tier) + warn_once_checks(ss, tier):
                 a["system_seed"] = ss
                 points.append(a)
                 if not a["ok"]:
